@@ -16,13 +16,13 @@ package types
 // Genesis validation (C12): the recorded next sequence is above the sequence number of every exported pool, so that an
 // exported state (next sequence = highest sequence + 1) is accepted and a re-imported chain cannot reuse a pool number.
 //@ func ParseLptDenom(lptDenom)
-//@   property C12
+//@   property C01, C02, C12
 //@   trusted
 //@   returns seq, err
 //@   ensures parsed: err == nil ==> seq == uf("lpt_seq", lptDenom) && seq >= 0
 //@ end
 //@ func ValidateGenesis(data)
-//@   property C12
+//@   property C01, C02, C12
 //@   returns err
 //@   invariant #1 idx: rangeindex >= 0 - 1 && rangeindex < len(data.Pool)
 //@   invariant #1 max: maxSequence >= 0 && (forall j:Int :: 0 <= j && j <= rangeindex ==> uf("lpt_seq", data.Pool[j].LptDenom) <= maxSequence)
